@@ -847,6 +847,43 @@ def r6(ctx):
     ctx.floor(rule, len(flags), "C08.R6.constructions")
 
 
+def r9(ctx):
+    rule = "C08.R9"
+    ctx.rule(rule, "a component's own tag wins: the tag AsnDefWriter::write_field_constraint hands to write_complex_constraint for a "
+                   "component that references another type is `field.tag.or(<tag of the referenced type>)` - the explicit or "
+                   "automatically assigned tag of the component first; with the operands exchanged every tagged reference reports "
+                   "the referenced type's tag in its TAG constant")
+    P = ctx.program()
+    p = fn_body(ctx, rule, P, "AsnDefWriter::write_field_constraint")
+    if not p:
+        return
+    n = 0
+    for body in [p] + P.closures_of(p):
+        O = X.Origins(body, P)
+        for cs in body.calls():
+            if cs.name != "write_complex_constraint":
+                continue
+            tys = cs.term.get("argtys") or []
+            for i, a in enumerate(O.call_args(cs)):
+                if i >= len(tys) or not tys[i].endswith("tag::Tag") and not ("Option<" in tys[i] and "Tag" in tys[i]):
+                    continue
+                n += 1
+                e = X.strip(a)
+                d = {"function": body.path, "call": cs.loc(), "tag_argument": F.rd(R.positional(e))[:200]}
+                ok = False
+                ors = [x for x in X.walk(e) if x[0] == "call" and X.last_seg(x[1] or "") in ("or", "or_else") and len(x[3]) == 2
+                       and "Option" in (x[1] or "")]
+                if ors:
+                    first = F.rd(R.positional(ors[0][3][0]))
+                    ok = ".tag" in first and " as Complex)" not in first
+                if ok:
+                    ctx.ok(rule, "write_field_constraint#complex-tag", d)
+                else:
+                    ctx.fail(rule, "write_field_constraint#complex-tag", "the tag of a referencing component is `%s`: the component's own tag "
+                                                                         "does not come first" % d["tag_argument"][:100], cs.loc(), d)
+    ctx.floor(rule, n, "C08.R9.calls")
+
+
 def run(ctx):
     r1(ctx)
     r2(ctx)
@@ -859,3 +896,4 @@ def run(ctx):
     # the descriptor constants of a SEQUENCE / SET are printed from the model's own fields (shared with C03)
     from .c03 import r5 as sequence_constants
     sequence_constants(ctx, rule="C08.R8")
+    r9(ctx)
